@@ -9,6 +9,9 @@ import TantivyModel.Proofs.DocSet.IntersectionCount
 import TantivyModel.Proofs.DocSet.BufferedUnionSeek
 import TantivyModel.Proofs.DocSet.BufferedUnionDanger
 import TantivyModel.Proofs.DocSet.BufferedUnionFill
+import TantivyModel.Proofs.DocSet.Construct
+import TantivyModel.Proofs.DocSet.IntersectionScore
+import TantivyModel.Proofs.DocSet.BitSet
 import TantivyModel.Model.DocSet.Tree
 /-!
 # C13 — every DocSet is one sorted sequence under any mix of advance and seek
@@ -102,6 +105,29 @@ theorem C13_vec_end_sticky (score : Nat) (prog : List Op)
     (hlegal : legalProg ⟨[], none⟩ prog = true) :
     implRun Vec.ds (Vec.init [] score) prog = specRun ⟨[], none⟩ prog :=
   (C13_end_sticky Vec.ds Vec.V _ C13_vec_lawful prog _ ⟨rfl, Sorted.nil⟩ hlegal).1
+
+/-- **BitSetDocSet** (src/query/bitset/mod.rs): cursor bucket + remaining bits of that bucket over a
+bitset of 64-bit buckets; `advance` (pop / `first_non_empty_bucket`), `seek` (past `max_value`, into
+a later bucket, inside the cursor bucket) and the default methods. The behaviour of `seek` past
+`max_value` is read from the source through the extracted guard
+`BITSET_SEEK_PAST_MAX_EXHAUSTS_CURSOR` (= 1 on the current source; with 0 the statement is false:
+KNOWN_FINDINGS `C13:bitset-seek-past-max-not-sticky`). -/
+theorem C13_bitset_lawful (fx : Fix) : Lawful (BitSet.ds fx) BitSet.V (defaultW BitSet.V) :=
+  BitSet.lawful fx
+
+theorem C13_bitset_program_equiv (fx : Fix) (docs : List Nat) (maxValue score : Nat) (hs : Sorted docs)
+    (hm : ∀ d ∈ docs, d < maxValue) (prog : List Op) (hlegal : legalProg ⟨docs, none⟩ prog = true) :
+    implRun (BitSet.ds fx) (BitSet.init docs maxValue score) prog = specRun ⟨docs, none⟩ prog :=
+  C13_program_equiv _ _ _ (BitSet.lawful fx) prog _ docs (BitSet.init_V hs hm) hlegal
+
+theorem C13_bitset_end_sticky (fx : Fix) (maxValue score : Nat) (prog : List Op)
+    (hlegal : legalProg ⟨[], none⟩ prog = true) :
+    implRun (BitSet.ds fx) (BitSet.init [] maxValue score) prog = specRun ⟨[], none⟩ prog :=
+  (C13_end_sticky _ _ _ (BitSet.lawful fx) prog _
+    (BitSet.init_V Sorted.nil (fun _ h => by cases h)) hlegal).1
+
+/-- the leaves of the scorer trees the driver builds -/
+theorem C13_leaf_lawful (fx : Fix) : Lawful (Leaf.ds fx) Leaf.V Leaf.W := Leaf.lawful fx
 
 /-! ### combinators over abstract children (`Lawful` children ⇒ `Lawful` combinator) -/
 
@@ -362,6 +388,26 @@ theorem C13_union_lawful_extracted (hA : Lawful A VA WA)
     Lawful (BUnion.ds A Gen.UNION_HORIZON fx) (BUnion.V VA Gen.UNION_HORIZON) (BUnion.W VA WA Gen.UNION_HORIZON) :=
   BUnion.lawful hA hscore (by decide) (by decide) fx
 
+/-- from construction: `BufferedUnionScorer::build` over valid children enumerates, under every legal
+call program, exactly their sorted union -/
+theorem C13_union_program_equiv_from_build (hA : Lawful A VA WA)
+    (hscore : ∀ {c l}, VA c l → VA (A.score c).2 l) (H : Nat) (hH : 64 ∣ H) (hH0 : 0 < H) (fx : Fix)
+    (sum : Bool) (cs : List σ) (ls : List (List Nat)) (U : List Nat) (hcs : All2 VA cs ls)
+    (hU : SimpleUnion.IsUnion U ls) (prog : List Op) (hlegal : legalProg ⟨U, none⟩ prog = true) :
+    implRun (BUnion.ds A H fx) (BUnion.build A H sum cs) prog = specRun ⟨U, none⟩ prog :=
+  C13_program_equiv _ _ _ (BUnion.lawful hA hscore hH hH0 fx) prog _ _
+    (BUnion.build_V hA hscore hH hH0 sum hcs hU) hlegal
+
+/-- from construction: `Intersection::new` over valid children enumerates, under every legal call
+program, exactly their common documents -/
+theorem C13_intersection_program_equiv_from_new (hA : Lawful A VA WA)
+    (hsmall : ∀ {c l}, VA c l → ∀ x ∈ l, x + BLOCK_WINDOW ≤ TERMINATED) (fx : Fix) (dense : Bool)
+    (l r : σ) (os : List σ) (ll lr : List Nat) (los : List (List Nat)) (hL : VA l ll) (hR : VA r lr)
+    (hO : All2 VA os los) (prog : List Op)
+    (hlegal : legalProg ⟨Inter.Common ll lr los, none⟩ prog = true) :
+    implRun (Inter.ds A fx) (Inter.new A dense l r os) prog = specRun ⟨Inter.Common ll lr los, none⟩ prog :=
+  C13_program_equiv _ _ _ (Inter.lawful hA hsmall fx) prog _ _ (Inter.new_V hA dense hL hR hO) hlegal
+
 /-- the extracted horizon satisfies the side conditions -/
 theorem C13_union_horizon_ok : 64 ∣ Gen.UNION_HORIZON ∧ 0 < Gen.UNION_HORIZON
     ∧ Gen.UNION_HORIZON / 64 = Gen.UNION_HORIZON_NUM_TINYBITSETS := by decide
@@ -375,6 +421,39 @@ theorem C13_reqopt_score_path_independent (hB : Lawful B VB WB) (fA fB : Nat →
     (hsum : s.sum = true) (hd : A.doc s.req < TERMINATED) :
     (ReqOpt.score A B s).1 = fA (A.doc s.req) + (if A.doc s.req ∈ lo then fB (A.doc s.req) else 0) :=
   ReqOpt.score_value hB hfA hfB hVO hc hsum hd
+
+/-- on a document every child of the intersection sits on that document (what `score` relies on) -/
+theorem C13_intersection_children_aligned (hA : Lawful A VA WA) (s : Inter.State σ) (l : List Nat)
+    (hV : Inter.V VA WA s l) (hne : l ≠ []) : ∀ c ∈ Inter.toList s, A.doc c = Spec.doc l :=
+  Inter.children_doc hA hV hne
+
+/-- score of the intersection (SumCombiner): with `g c` the score function of child `c`, the score at
+the current document `d` is `Σ_children g c d`, for every valid state however it was reached -/
+theorem C13_intersection_score_value (hA : Lawful A VA WA) (fx : Fix) (g : σ → Nat → Nat)
+    (hg : ∀ c, (A.score c).1 = g c (A.doc c)) (s : Inter.State σ) (l : List Nat)
+    (hV : Inter.V VA WA s l) (hne : l ≠ []) :
+    ((Inter.ds A fx).score s).1 = (((Inter.toList s).map g).map (fun f => f (Spec.doc l))).sum :=
+  Inter.score_value hA fx g hg hV hne
+
+/-- the moves of the intersection leave data of the children that the children's own methods do not
+change (their score functions) alone -/
+theorem C13_intersection_ghost_preserved {α : Type} (g : σ → α) (hG : Inter.Ghost A g) (fx : Fix)
+    (s : Inter.State σ) (t : Nat) :
+    (Inter.toList ((Inter.ds A fx).advance s)).map g = (Inter.toList s).map g
+      ∧ (Inter.toList ((Inter.ds A fx).seek t s)).map g = (Inter.toList s).map g
+      ∧ (Inter.toList ((Inter.ds A fx).seekDanger t s).2).map g = (Inter.toList s).map g
+      ∧ (Inter.toList ((Inter.ds A fx).score s).2).map g = (Inter.toList s).map g :=
+  ⟨Inter.advance_ghost hG s, Inter.seek_ghost hG t s, Inter.seekDanger_ghost hG t s, Inter.score_ghost hG fx s⟩
+
+/-- score path independence of the intersection: two valid states on the same document, over children
+with the same score functions, score the same — whatever calls brought them there -/
+theorem C13_intersection_score_path_independent (hA : Lawful A VA WA) (fx : Fix) (g : σ → Nat → Nat)
+    (hg : ∀ c, (A.score c).1 = g c (A.doc c)) (s1 s2 : Inter.State σ) (l1 l2 : List Nat)
+    (hV1 : Inter.V VA WA s1 l1) (hV2 : Inter.V VA WA s2 l2) (h1 : l1 ≠ []) (h2 : l2 ≠ [])
+    (hdoc : Spec.doc l1 = Spec.doc l2)
+    (hghost : (Inter.toList s1).map g = (Inter.toList s2).map g) :
+    ((Inter.ds A fx).score s1).1 = ((Inter.ds A fx).score s2).1 := by
+  rw [Inter.score_value hA fx g hg hV1 h1, Inter.score_value hA fx g hg hV2 h2, hdoc, hghost]
 
 end combinators
 
@@ -511,6 +590,24 @@ example : ∀ x ∈ [1, 5, 9000], x + BLOCK_WINDOW ≤ TERMINATED := by decide
 example : coreOnly [.doc, .seek 5, .advance, .fillBitset 7] = true := by decide
 example : Inter.Common [1, 5, 9] [5, 9, 11] [[0, 5, 9], [9]] = [9] := by decide
 example : All2 Vec.V [Vec.init [] 1] [[]] := All2.cons ⟨rfl, Sorted.nil⟩ All2.nil
+example : Inter.Ghost Vec.ds (fun c (_ : Nat) => c.score) := Inter.vec_ghost
+example : ∀ c : Vec.State, (Vec.ds.score c).1 = (fun c (_ : Nat) => c.score) c (Vec.ds.doc c) := fun _ => rfl
+example : let D := Inter.ds Vec.ds
+    let s0 := Inter.new Vec.ds false (Vec.init [1, 5, 9] 2) (Vec.init [5, 9] 3) [Vec.init [0, 5, 7, 9] 4]
+    D.doc s0 = 5 ∧ (D.score s0).1 = 9 ∧ D.doc (D.advance s0) = 9 ∧ (D.score (D.advance s0)).1 = 9
+      ∧ (D.score (D.seek 9 s0)).1 = 9 := by decide +kernel
+example : SimpleUnion.IsUnion [1, 5, 7, 9] [[1, 5, 9], [5, 7]] := by
+  refine ⟨⟨by decide, ?_⟩, ?_⟩
+  · intro x hx
+    simp only [List.mem_cons, List.mem_nil_iff, or_false] at hx
+    rcases hx with rfl | rfl | rfl | rfl <;> decide
+  · intro x
+    simp only [List.mem_cons, List.mem_nil_iff, or_false, exists_eq_or_imp, exists_eq_left]
+    omega
+example : implRun (BitSet.ds) (BitSet.init [1, 5, 70, 200] 256 1)
+      [.doc, .advance, .seek 64, .seekDanger 100, .seek 300, .advance, .doc]
+    = specRun ⟨[1, 5, 70, 200], none⟩ [.doc, .advance, .seek 64, .seekDanger 100, .seek 300, .advance, .doc] := by
+  decide +kernel
 example : Exclude.ok [[5, 7], [9]] 1 = true ∧ Exclude.ok [[5, 7], [9]] 9 = false := by decide
 example : Vec.V (Vec.init [1, 5, 9] 2) [1, 5, 9] := ⟨rfl, by
   refine ⟨by decide, ?_⟩
